@@ -10,6 +10,9 @@ CHECKS = {
  "C12": ("runtime monitor: signer input vs parser-reported vs independently computed signed portion; exhaustive/sampled single-bit tampering against decode + matching validator",
          "For every generated signed packet (all shipped signers, Data and Interest variants) the bytes handed to the signer, the signed portion the parser returns (contiguous and segmented) and the spec-defined portion located by an independent walker must be identical, the matching validator and the harness's own crypto must accept; then every single-bit flip inside signed portion / signature value / parameters (all bits of small packets, uniform sample of large ones; ~7x10^5 flips per quick run) must be rejected; wrong parameter digests must be rejected.",
          "Trusted: internal/tlvwalk signed-range computation per NDN packet spec v0.3; Go crypto.", "5/C12"),
+ "C13": ("runtime round-trip monitor over all generated models discovered by scanning the tree, unknown-element insertion at every boundary, byte comparison of regenerated code",
+         "All generated models (79 today, rediscovered at check time from zz_generated.go + definition files) are exercised with type-directed values: announced length and wire plan vs bytes produced, strict TLV walk, Parse(Encode(v)) == v contiguous and segmented, unknown non-critical/critical element at every top-level boundary; and the generator is rebuilt from the tree and its output compared byte-for-byte with every checked-in zz_generated.go.",
+         "Signature-valued fields are left empty here (covered by C03/C12); unexported marker fields are not compared; reflection reads the encoder's unexported length/wirePlan.", "5/C13"),
  "C14": ("runtime law monitor over generated name pairs/triples + panic sanitizing of the URI parsers",
          "Every law of the statement (canonical total order, Equal<=>encoding equality<=>Compare==0, prefix relation, Equal=>Hash equal, PrefixHash[i]=Hash(name[:i]), URI round trip, parsers never panic) is evaluated by an oracle on >10^5 generated, adversarially close cases per run; a run reports the distinct relation/shape classes it actually observed.",
          "Trusted: the harness's own 20-line canonical order; hash collisions are not searched for.", "5/C14"),
